@@ -394,6 +394,43 @@ def rule_t5(repo, col):
     col.floor("T5.result_assignments", n, 3)
 
 
+def rule_t6(repo, col):
+    """dtproblog(): the search procedure follows the `search` option - "local" selects the local search, anything else (None, the default of the API, and "exhaustive") the
+    exhaustive search (scenario table over the option values)"""
+    f = repo.func(MOD, "dtproblog")
+    m = f.module
+    if "search" not in f.params:
+        raise AnalysisError("dtproblog: search parameter not found")
+    dflt = f.node.args.defaults[f.params.index("search") - (len(f.params) - len(f.node.args.defaults))] if f.params.index("search") >= len(f.params) - len(f.node.args.defaults) else None
+    calls = [c for c in ast.walk(f.node) if isinstance(c, ast.Call) and dotted(c.func) in ("search_local", "search_exhaustive")]
+    if len(calls) != 2:
+        raise AnalysisError("dtproblog: the two search calls were not found")
+    parents = m.parents()
+    n = 0
+    for val, want in ((None, "search_exhaustive"), ("exhaustive", "search_exhaustive"), ("local", "search_local")):
+        chosen = []
+        for c in calls:
+            cur, child = parents.get(c), c
+            ok = True
+            while cur is not None and cur is not f.node:
+                if isinstance(cur, ast.If) and "search" in norm(cur.test):
+                    v = dtable.eval_atom(norm(cur.test), [("search", val)], default=None)
+                    if v is None:
+                        raise AnalysisError("dtproblog: search test not decidable: %s" % norm(cur.test))
+                    in_body = any(child is x or any(child is y for y in ast.walk(x)) for x in cur.body)
+                    if v != in_body:
+                        ok = False
+                child, cur = cur, parents.get(cur)
+            if ok:
+                chosen.append(dotted(c.func))
+        n += 1
+        col.decide("T6", m, f.node, chosen == [want], "search=%r runs %s" % (val, want),
+                   "dtproblog(search=%r) runs %s; it must run %s: the documented default of the API (search=None) is the exhaustive search, which returns the optimal strategy - with the "
+                   "dispatch inverted an API call silently gets a local optimum" % (val, chosen, want), construct="dtproblog: search=%r" % (val,), function="dtproblog")
+    col.decide("T6", m, f.node, dflt is not None and isinstance(dflt, ast.Constant) and dflt.value is None, "the search option defaults to None", "dtproblog(search=...) must default to None",
+               construct="dtproblog: search default", function="dtproblog")
+
+
 def run(repo, col):
     col.rule("T1", "search_exhaustive enumerates every strategy; skips only on failed constraints")
     col.rule("T2", "incumbent score and strategy are replaced together, exactly on strict improvement")
@@ -404,3 +441,5 @@ def run(repo, col):
     rule_t3(repo, col)
     rule_t4(repo, col)
     rule_t5(repo, col)
+    col.rule("T6", "the search procedure follows the search option")
+    rule_t6(repo, col)
